@@ -55,6 +55,9 @@ def check_visitor_core(model: Model, col, rule: str):
             atoms = cond_atoms(evs)
             if any(k.startswith(f"hasattr({selfn},") and v is True for k, v in atoms.items()):
                 first_hit = first_hit or status in ("return", "break") or any(e.kind == "break" for e in evs)
+    # (`next(<generator over the MRO names ... if hasattr(self, n)>, default)` takes the first match by construction)
+    first_hit = first_hit or any(isinstance(c, ast.Call) and isinstance(c.func, ast.Name) and c.func.id == "next" and c.args and isinstance(c.args[0], ast.GeneratorExp)
+                                 and any(f"hasattr({selfn}," in unparse(i) for g in c.args[0].generators for i in g.ifs) for c in ast.walk(vg))
     col.check(first_hit, rule, f"{VISITOR}::Visitor.v_Generic first match wins", "the first class of the MRO that has a handler decides (the loop returns there)",
               "a matching handler does not end the search: a more general handler overrides the specific one", VISITOR, vg)
     fallback = [c for c in ast.walk(vg) if isinstance(c, ast.Attribute) and c.attr == "v_Default"]
